@@ -1486,9 +1486,28 @@ func (fc *FnCtx) applyContractSig(st *State, call *ast.CallExpr, fname string, s
 	fc.bindResults(scope, sig, out)
 	env2 := &SpecEnv{fc: fc, st: st, old: pre, scope: scope, oldScope: scope, pkg: cpkg, useVars: fv}
 	for _, en := range ct.Ensures {
-		st.assume(fc.safeSpec(env2, en.E, en.Text).T)
+		if v, ok := fc.specForCaller(env2, en, ct); ok {
+			st.assume(v.T)
+		}
 	}
 	return out
+}
+
+// specForCaller evaluates a postcondition of a callee at a call site. A postcondition of a function under contract
+// (not an extern) that names a local of the callee's body says something the caller cannot see: it is proved on the
+// callee and simply not handed to the caller (assuming less is sound). The callee's own verification still reports a
+// name that resolves nowhere.
+func (fc *FnCtx) specForCaller(env *SpecEnv, en Clause, ct *Contract) (v Val, ok bool) {
+	defer func() {
+		if r := recover(); r != nil {
+			if ue, isU := r.(unsupportedErr); isU && !ct.Extern && strings.Contains(ue.msg, "unknown name") {
+				ok = false
+				return
+			}
+			panic(r)
+		}
+	}()
+	return fc.safeSpec(env, en.E, en.Text), true
 }
 
 func clauseName(c Clause, i int) string {
